@@ -7,14 +7,16 @@ Model of sender authorisation:
       `(*state).authzSender`                                           → `prepared`, `authzSender`
       `(*state).CheckSender`                                           → `checkSender`
       `(*state).CheckBody`                                             → `checkBody`
-* `framework/config/module/check_action.go`  `FailAction.Apply`        → `FailAction.apply`
+* `framework/config/module/check_action.go`  `FailAction.Apply`        → `FailAction.apply` (flags and the `ReasonOverride` wrap)
+      `ParseActionDirective`, `ParseRejectDirective`, `parseEnhancedCode` → `parseActionDirective`, `parseRejectDirective`,
+      `parseEnhancedCode` (the argument lists of `unauth_action` / `no_match_action` / `err_action`; `strconv.Atoi` is
+      modelled on unsigned decimal tokens, anything else is a configuration error)
 * `internal/check/authorize_sender/authorize_sender.go`  `(*Check).Init` → `Directives`, `Directives.cfg` (the defaults of
   the directives that are not written: check_header yes, tables identity, actions reject)
 * `internal/table/file.go`  `readFile` (well-formed files), `Lookup`/`LookupMulti`, `Init`, `reload` → `fileLookup`, `fileTable`,
   `FileState.init`, `FileState.step` (the time-stamp guards of `reload` are environment: the harness gives every
   edit a newer, old-enough stamp)
 * `internal/endpoint/smtp/submission.go`  `submissionPrepare`          → `submissionWrites` (frame: which fields it writes)
-  (the `ReasonOverride` branch only rewrites code/text of a non-nil reason; not modelled)
 
 Strings are code-point lists (`MaddyVerif.Address.Str`); `address.Split` is the model already
 tied to the code by C17.  Parameters (library behaviour, not modelled):
@@ -38,10 +40,19 @@ inductive Table where
   | single (f : Str → Except Unit (Option Str))   -- Lookup: `none` = `ok == false`
   | multi  (f : Str → Except Unit (List Str))     -- LookupMulti
 
-/-- `modconfig.FailAction` (without `ReasonOverride`). -/
+/-- The reply an action directive puts in place of the check's own (`FailAction.ReasonOverride`, an
+`*exterrors.SMTPError`): SMTP code, enhanced code, text. -/
+structure Reply where
+  code : Nat
+  enh : Nat × Nat × Nat
+  msg : Str
+deriving DecidableEq, Repr
+
+/-- `modconfig.FailAction`. -/
 structure FailAction where
   reject : Bool
   quarantine : Bool
+  override : Option Reply := none      -- `ReasonOverride` (nil = the check's own reply is used)
 deriving DecidableEq, Repr
 
 /-- Which `exterrors.SMTPError` literal of authorize_sender.go a result carries. -/
@@ -64,13 +75,18 @@ structure Result where
   reason : Option Reason := none
   reject : Bool := false
   quarantine : Bool := false
+  reply : Option Reply := none         -- the outermost `ReasonOverride` wrapped around the reason, if any
 deriving DecidableEq, Repr
 
-/-- `FailAction.Apply`. -/
+/-- `FailAction.Apply`: nothing without a reason; otherwise the configured reply (if any) is wrapped
+around the reason — code and text of the answer change, the reason stays inside — and the flags of
+the action are or-ed in.  The wrap does not touch the flags. -/
 def FailAction.apply (a : FailAction) (r : Result) : Result :=
   match r.reason with
   | none => r
-  | some _ => { r with quarantine := a.quarantine || r.quarantine, reject := a.reject || r.reject }
+  | some _ =>
+    { r with reply := (match a.override with | some o => some o | none => r.reply),
+             quarantine := a.quarantine || r.quarantine, reject := a.reject || r.reject }
 
 /-- `action.Apply(module.CheckResult{Reason: …})` -/
 def fail (a : FailAction) (why : Reason) : Result := a.apply { reason := some why }
@@ -130,6 +146,86 @@ def Reason.message : Reason → String
 def Reason.all : List Reason :=
   [.authRequired, .normFrom, .normAuth, .internal, .noMatch, .missingFrom, .repeatedFrom,
    .malformedFrom, .multipleFromAddrs, .repeatedSender, .malformedSender]
+
+/-! ### the action directives (`modconfig.FailActionDirective` → `ParseActionDirective`)
+
+`unauth_action` / `no_match_action` / `err_action` take `ignore`, `reject`, `quarantine`, or
+`reject|quarantine <code> [<enhanced code> [<text>]]`.  The word alone decides the flags; the further
+arguments only build the reply (`ParseRejectDirective`). -/
+
+def str (x : String) : Str := x.toList.map Char.toNat
+
+def REJECT : Str := str "reject"
+def QUARANTINE : Str := str "quarantine"
+def IGNORE : Str := str "ignore"
+
+/-- `msg := "Message rejected due to a local policy"` -/
+def defaultReplyMsg : Str := str "Message rejected due to a local policy"
+
+/-- `strconv.Atoi` on an unsigned decimal token (what configurations are written with); every other
+token counts as "not a number". -/
+def atoi? (s : Str) : Option Nat :=
+  if s.isEmpty || !s.all (fun ch => 48 ≤ ch && ch ≤ 57) then none
+  else some (s.foldl (fun n ch => n * 10 + (ch - 48)) 0)
+
+/-- `parseEnhancedCode`: exactly three numbers separated by dots (`splitDots` = `strings.Split(s, ".")`, Model/Address). -/
+def parseEnhancedCode (s : Str) : Option (Nat × Nat × Nat) :=
+  match splitDots s with
+  | [a, b, c] =>
+    match atoi? a, atoi? b, atoi? c with
+    | some a, some b, some c => some (a, b, c)
+    | _, _, _ => none
+  | _ => none
+
+/-- the `case 1:` part of `ParseRejectDirective` (reached by fallthrough from 3 and 2 arguments):
+the basic code must be 4xx or 5xx; an enhanced code whose class is still 0 gets the class of the
+basic code. -/
+def replyWithCode (codeTok : Str) (enh : Nat × Nat × Nat) (msg : Str) : Option Reply :=
+  match atoi? codeTok with
+  | none => none
+  | some code =>
+    if code / 100 != 4 && code / 100 != 5 then none
+    else some { code := code, enh := (if enh.1 == 0 then (code / 100, enh.2) else enh), msg := msg }
+
+/-- the enhanced-code argument: three numbers, class 4 or 5 -/
+def enhArg (tok : Str) : Option (Nat × Nat × Nat) :=
+  match parseEnhancedCode tok with
+  | none => none
+  | some e => if e.1 != 4 && e.1 != 5 then none else some e
+
+/-- `ParseRejectDirective` (`none` = error): 0–3 arguments. -/
+def parseRejectDirective (args : List Str) : Option Reply :=
+  match args with
+  | [] => some { code := 554, enh := (5, 7, 0), msg := defaultReplyMsg }
+  | [c] => replyWithCode c (0, 7, 0) defaultReplyMsg
+  | [c, e] =>
+    match enhArg e with
+    | none => none
+    | some e => replyWithCode c e defaultReplyMsg
+  | [c, e, m] =>
+    if m.isEmpty then none else
+    match enhArg e with
+    | none => none
+    | some e => replyWithCode c e m
+  | _ => none
+
+/-- The flags an action word stands for (`res.Reject = args[0] == "reject"`,
+`res.Quarantine = args[0] == "quarantine"`). -/
+def wordFlags (w : Str) : FailAction := { reject := w == REJECT, quarantine := w == QUARANTINE }
+
+/-- `ParseActionDirective` (`none` = configuration error: `Init` fails).  `ignore` takes no notice of
+further arguments. -/
+def parseActionDirective (args : List Str) : Option FailAction :=
+  match args with
+  | [] => none
+  | w :: rest =>
+    if w == REJECT || w == QUARANTINE then
+      if rest.isEmpty then some (wordFlags w) else
+      match parseRejectDirective rest with
+      | none => none
+      | some o => some { wordFlags w with override := some o }
+    else if w == IGNORE then some (wordFlags w)
+    else none
 
 /-! ### `authz.AuthorizeEmailUse` -/
 
@@ -292,7 +388,7 @@ structure Directives where
 def identityTable : Table := .single fun k => .ok (some k)
 
 /-- `modconfig.FailAction{Reject: true}` -/
-def rejectAction : FailAction := ⟨true, false⟩
+def rejectAction : FailAction := { reject := true, quarantine := false }
 
 /-- What `Init` leaves in the `Check` for a configuration block. -/
 def Directives.cfg (d : Directives) : Cfg where
